@@ -14,3 +14,23 @@ chk("C12", "exploration",
     "Sweeps every (M,P) in 1..6 x 1..4 with N from 1 to M+P+3 in child processes of the overflow-checked and release builds; checks Ok => N>M+P and the three identities, and Err (never a panic) for under-determined fits, failed fits and a model failing at every call of the statistics stage.",
     "Ok is not demanded for N>M+P; identities are checked between reported quantities with rounding-level tolerances.",
     "process-boundary panic events + identity monitor over a shape sweep, two build profiles", "5/C12")
+chk("C02", "exploration",
+    "Residual identity recomputed in f64 from reported coefficients, supplied Y/w and the oracle's Phi at every state of generated update histories (caller- and optimizer-driven) and for every residual vector handed to the optimizer; weighted_data == W·Y bitwise; params() == last alpha; best_fit == unweighted Phi·C in the observations' shape.",
+    "Oracle Phi comes from the zoo's formulas; tolerance 16·eps·M·(|y_w|+|Phi_w||C|) per element, kappa-free.",
+    "online identity monitor over update histories + ProblemSpy exchange log", "5/C02")
+chk("C03", "exploration",
+    "Every Jacobian (states, histories, optimizer exchanges) compared with the Kaufman reference -(I-QQ^T)WD_kC from the oracle's QR, orthogonality certificate, gradient check against Richardson central differences, and each derivative call failed in turn must give no Jacobian.",
+    "Only numerically full-rank states are in scope (kappa<=1e8, 1e3 for f32); mismatches explained by the measured SVD reconstruction error are KF-1.",
+    "reference-model + certificate monitor, fault injection on derivative calls", "5/C03")
+chk("C06", "exploration",
+    "Differential twins over shared alpha-histories and fits: weighted problem vs unweighted problem over a row-scaled wrapper model and row-scaled data; unit weights vs none; zero-weight rows vs other data / removed rows; reduced chi2 and covariance of both twins.",
+    "Twins are compared with kappa-scaled tolerances (bitwise agreement is recorded, not demanded); ill-conditioned states are inconclusive.",
+    "differential twin monitor", "5/C06")
+chk("C07", "exploration",
+    "One S-column problem vs S single problems vs a column-permuted problem over shared alpha-histories: coefficient column, residual block and every Jacobian block per column; permuted fits on identifiable families.",
+    "kappa-scaled twin tolerances; fitted-alpha comparison only where the fitted point is well identified.",
+    "differential twin monitor", "5/C07")
+chk("C10", "exploration",
+    "Long-lived problem vs freshly built problem bitwise after every step of random histories (repeated, failing, non-finite updates, repeated queries, heap churn); same sequences under a poisoning allocator in three modes (child processes); thorough adds valgrind memcheck and Miri over a workload that branches on every output element.",
+    "Bitwise equality is the property itself (determinism of one computation); the poison allocator initialises memory so memcheck/Miri run with it in pass-through mode.",
+    "history-twin monitor + poisoning allocator + memcheck + Miri", "5/C10")
